@@ -10,7 +10,7 @@
      tr_jkt t / tr_x5t t / tr_dpop t                 cnf of the grant a token response belongs to; token_type = DPoP
      authn w st cr                                   the client a request authenticates as (static clients first)
    Thumbprints are ideal: the thumbprint of key k is k, that of certificate n is n; 0 is "". *)
-From Verif Require Import Base Scope Types Prog Pop Token Authorize System Config C06Proofs.
+From Verif Require Import Base Scope Types Prog Pop Token Authorize System Config C06Proofs Htu C06HtuProofs.
 Local Open Scope N_scope.
 
 (* (1) A DPoP proof is accepted iff it (1) parses with an enabled algorithm and is typed dpop+jwt,
@@ -37,6 +37,59 @@ Theorem htu_equivalences : forall v,
   In v [HtuExact; HtuHostCase; HtuSchemeCase; HtuDefaultPort; HtuTrailingSlash; HtuWithQuery; HtuWithFragment].
 Proof. exact htu_ok_iff. Qed.
 Print Assumptions htu_equivalences.
+
+(* (1b) The URL comparison itself, on the strings the code compares (Model/Htu.v: normalize_url =
+   strutil.NormalizeURL, htu_match hosts uri htu = "NormalizeURL(htu) succeeds and is one of
+   host ++ RequestURI", hosts = [Host] or [Host; MTLSHost]).  The comparison is exact equality, never
+   a prefix test: for ALL hosts, request URIs and htu strings, an htu that is a strict string prefix of
+   the request URL - the bare issuer, a truncated path or host, the URL without the query string the
+   request carries - is refused; so is the empty htu, which is also what an absent htu claim reads as. *)
+Theorem htu_prefix_refused : forall host uri htu,
+  strict_prefix htu (host ++ uri) -> htu_match [host] uri htu = false.
+Proof. exact htu_prefix_refused_one. Qed.
+Print Assumptions htu_prefix_refused.
+
+Theorem htu_prefix_refused_all_hosts : forall hosts uri htu,
+  (forall h, In h hosts -> strict_prefix htu (h ++ uri)) -> htu_match hosts uri htu = false.
+Proof. exact htu_prefix_refused_lemma. Qed.
+Print Assumptions htu_prefix_refused_all_hosts.
+
+Theorem htu_empty_refused : forall hosts uri,
+  (forall h, In h hosts -> h ++ uri <> "") -> htu_match hosts uri "" = false.
+Proof. exact htu_empty_refused_lemma. Qed.
+Print Assumptions htu_empty_refused.
+
+(* an accepted htu normalises to exactly one of the request's URLs, and is no strict prefix of it *)
+Theorem htu_accepted_is_request_url : forall hosts uri htu,
+  htu_match hosts uri htu = true ->
+  exists h, In h hosts /\ normalize_url htu = Some (h ++ uri) /\ ~ strict_prefix htu (h ++ uri).
+Proof. exact htu_match_sound. Qed.
+Print Assumptions htu_accepted_is_request_url.
+
+(* through the abstraction of Model/Pop.v (htu_class: the variant a concrete htu stands for at a
+   request): dpop.ValidateJWT refuses every proof whose htu is a strict prefix of the request URL,
+   whatever its other members, the lifetime, the leeway, the presented token and the expected key *)
+Theorem dpop_prefix_htu_refused : forall lifetime leeway p tok jkt hosts uri htu,
+  (forall h, In h hosts -> strict_prefix htu (h ++ uri)) ->
+  dp_htu p = htu_class hosts uri htu ->
+  validate_jwt lifetime leeway p tok jkt <> None.
+Proof. exact dpop_prefix_htu_refused_lemma. Qed.
+Print Assumptions dpop_prefix_htu_refused.
+
+Example htu_prefix_examples :
+  let hosts := ["https://as.example"; "https://mtls.as.example"] in
+  (* accepted spellings *)
+  map (htu_match hosts "/auth/token")
+      ["https://as.example/auth/token"; "HTTPS://AS.Example:443/auth/token/?x=1#f"; "https://mtls.as.example/auth/token"]
+    = [true; true; true] /\
+  (* strict prefixes of the request URL, the empty htu, the URL without the request's query *)
+  map (htu_match ["https://as.example"] "/auth/token")
+      ["https://as.example"; "https://as.example/"; "https://as.example/auth"; "https://as.example/auth/tok";
+       "https://as.exampl"; "https://"; ""]
+    = [false; false; false; false; false; false; false] /\
+  htu_match ["https://as.example"] "/userinfo?x=1" "https://as.example/userinfo" = false /\
+  strict_prefix "https://as.example/auth/tok" ("https://as.example" ++ "/auth/token").
+Proof. vm_compute. repeat split; try reflexivity. exists "en". split; [discriminate|reflexivity]. Qed.
 
 Example dpop_accept_example :
   validate_jwt jwt_lifetime jwt_leeway (ex_proof ex_key ex_at) ex_at ex_key = None /\
